@@ -13,7 +13,7 @@ namespace sim
 {
   enum Strategy { S_RANDOM = 0, S_BURST = 1, S_RR = 2, S_PCT = 3, S_STARVE = 4, S_SCRIPT = 5, S_SEQ = 6 };
 
-  enum Site { SITE_SPAWN = 100, SITE_JOIN = 101, SITE_EXIT = 102, SITE_OP = 103, SITE_IO = 104, SITE_PREEMPT = 105 };
+  enum Site { SITE_SPAWN = 100, SITE_JOIN = 101, SITE_EXIT = 102, SITE_OP = 103, SITE_IO = 104, SITE_PREEMPT = 105, SITE_LOCK = 106 };
 
   struct SchedParams
   {
